@@ -44,7 +44,7 @@
    Go -> model:
      ClientSession.state (atomic int32)        c_status       Start/Handshake/Working/Closed
      chanClose (closed or not, under mutex)    c_latch
-     chSend (cap 9999)                         c_sendq, c_nq  newest first; c_nq = its length
+     chSend (cap 9999)                         c_sendf/c_sendq, c_nq   two-list FIFO; c_nq = its length
      lastHeartBeat, common.NowMs()             c_lasthb, now  ms; limit 2*10*1000
      conn.GetNextMessage (tcp framing)         c_inbox/c_eof  packet CLASSES, see [pkt]
      TCPAcceptor.connChan (cap 99)             cch            ahand/shand: what the two loops hold
@@ -81,6 +81,7 @@ Record conn := mkConn {
   c_wp : wpc;
   c_hp : hpc;
   c_sendq : list witem;
+  c_sendf : list witem;
   c_nq : Z;
   c_inbox : list pkt;
   c_eof : bool;
@@ -94,13 +95,13 @@ Record conn := mkConn {
   c_arrived : list Z
 }.
 
-(* c_sendq: chSend, newest first.  c_wstall: conn.Write blocks until closed.  c_pp: pushes the
+(* chSend = c_sendf (oldest first) followed by the reverse of c_sendq (newest first).  c_wstall: conn.Write blocks until closed.  c_pp: pushes the
    flood goroutine still has to issue.  Ghost / observable counters: c_cause (an end cause has
    been signalled), c_ncb (OnSessionClose callbacks = conn.Close() calls), c_npush (Push calls
    that RETURNED), c_nsent (push packets written to the client), c_arrived (data messages in the
    order the client sent them). *)
 Definition conn0 : conn :=
-  mkConn SStart false 0 RTop WLoop HLoop [] 0 [] false false false 0 false 0 0 0 [].
+  mkConn SStart false 0 RTop WLoop HLoop [] [] 0 [] false false false 0 false 0 0 0 [].
 
 Inductive ev := EAdd (c : Z) | EMsg (c m : Z) | ERemove (c : Z).
 
@@ -198,42 +199,45 @@ Definition post (e : ev) (s : st) : st := s_q (q s ++ [e]) s.
 Definition set_front (f : front) (s : st) : st := s_fr f s.
 
 Definition k_status (x : status) (k : conn) : conn :=
-  mkConn x (c_latch k) (c_lasthb k) (c_rp k) (c_wp k) (c_hp k) (c_sendq k) (c_nq k) (c_inbox k) (c_eof k) (c_wfail k) (c_wstall k) (c_pp k) (c_cause k) (c_ncb k) (c_npush k) (c_nsent k) (c_arrived k).
+  mkConn x (c_latch k) (c_lasthb k) (c_rp k) (c_wp k) (c_hp k) (c_sendq k) (c_sendf k) (c_nq k) (c_inbox k) (c_eof k) (c_wfail k) (c_wstall k) (c_pp k) (c_cause k) (c_ncb k) (c_npush k) (c_nsent k) (c_arrived k).
 Definition k_lasthb (x : Z) (k : conn) : conn :=
-  mkConn (c_status k) (c_latch k) x (c_rp k) (c_wp k) (c_hp k) (c_sendq k) (c_nq k) (c_inbox k) (c_eof k) (c_wfail k) (c_wstall k) (c_pp k) (c_cause k) (c_ncb k) (c_npush k) (c_nsent k) (c_arrived k).
+  mkConn (c_status k) (c_latch k) x (c_rp k) (c_wp k) (c_hp k) (c_sendq k) (c_sendf k) (c_nq k) (c_inbox k) (c_eof k) (c_wfail k) (c_wstall k) (c_pp k) (c_cause k) (c_ncb k) (c_npush k) (c_nsent k) (c_arrived k).
 Definition k_rp (x : rpc) (k : conn) : conn :=
-  mkConn (c_status k) (c_latch k) (c_lasthb k) x (c_wp k) (c_hp k) (c_sendq k) (c_nq k) (c_inbox k) (c_eof k) (c_wfail k) (c_wstall k) (c_pp k) (c_cause k) (c_ncb k) (c_npush k) (c_nsent k) (c_arrived k).
+  mkConn (c_status k) (c_latch k) (c_lasthb k) x (c_wp k) (c_hp k) (c_sendq k) (c_sendf k) (c_nq k) (c_inbox k) (c_eof k) (c_wfail k) (c_wstall k) (c_pp k) (c_cause k) (c_ncb k) (c_npush k) (c_nsent k) (c_arrived k).
 Definition k_wp (x : wpc) (k : conn) : conn :=
-  mkConn (c_status k) (c_latch k) (c_lasthb k) (c_rp k) x (c_hp k) (c_sendq k) (c_nq k) (c_inbox k) (c_eof k) (c_wfail k) (c_wstall k) (c_pp k) (c_cause k) (c_ncb k) (c_npush k) (c_nsent k) (c_arrived k).
+  mkConn (c_status k) (c_latch k) (c_lasthb k) (c_rp k) x (c_hp k) (c_sendq k) (c_sendf k) (c_nq k) (c_inbox k) (c_eof k) (c_wfail k) (c_wstall k) (c_pp k) (c_cause k) (c_ncb k) (c_npush k) (c_nsent k) (c_arrived k).
 Definition k_hp (x : hpc) (k : conn) : conn :=
-  mkConn (c_status k) (c_latch k) (c_lasthb k) (c_rp k) (c_wp k) x (c_sendq k) (c_nq k) (c_inbox k) (c_eof k) (c_wfail k) (c_wstall k) (c_pp k) (c_cause k) (c_ncb k) (c_npush k) (c_nsent k) (c_arrived k).
+  mkConn (c_status k) (c_latch k) (c_lasthb k) (c_rp k) (c_wp k) x (c_sendq k) (c_sendf k) (c_nq k) (c_inbox k) (c_eof k) (c_wfail k) (c_wstall k) (c_pp k) (c_cause k) (c_ncb k) (c_npush k) (c_nsent k) (c_arrived k).
 Definition k_inbox (x : list pkt) (k : conn) : conn :=
-  mkConn (c_status k) (c_latch k) (c_lasthb k) (c_rp k) (c_wp k) (c_hp k) (c_sendq k) (c_nq k) x (c_eof k) (c_wfail k) (c_wstall k) (c_pp k) (c_cause k) (c_ncb k) (c_npush k) (c_nsent k) (c_arrived k).
+  mkConn (c_status k) (c_latch k) (c_lasthb k) (c_rp k) (c_wp k) (c_hp k) (c_sendq k) (c_sendf k) (c_nq k) x (c_eof k) (c_wfail k) (c_wstall k) (c_pp k) (c_cause k) (c_ncb k) (c_npush k) (c_nsent k) (c_arrived k).
 Definition k_pp (x : Z) (k : conn) : conn :=
-  mkConn (c_status k) (c_latch k) (c_lasthb k) (c_rp k) (c_wp k) (c_hp k) (c_sendq k) (c_nq k) (c_inbox k) (c_eof k) (c_wfail k) (c_wstall k) x (c_cause k) (c_ncb k) (c_npush k) (c_nsent k) (c_arrived k).
+  mkConn (c_status k) (c_latch k) (c_lasthb k) (c_rp k) (c_wp k) (c_hp k) (c_sendq k) (c_sendf k) (c_nq k) (c_inbox k) (c_eof k) (c_wfail k) (c_wstall k) x (c_cause k) (c_ncb k) (c_npush k) (c_nsent k) (c_arrived k).
 Definition k_arrived (x : list Z) (k : conn) : conn :=
-  mkConn (c_status k) (c_latch k) (c_lasthb k) (c_rp k) (c_wp k) (c_hp k) (c_sendq k) (c_nq k) (c_inbox k) (c_eof k) (c_wfail k) (c_wstall k) (c_pp k) (c_cause k) (c_ncb k) (c_npush k) (c_nsent k) x.
+  mkConn (c_status k) (c_latch k) (c_lasthb k) (c_rp k) (c_wp k) (c_hp k) (c_sendq k) (c_sendf k) (c_nq k) (c_inbox k) (c_eof k) (c_wfail k) (c_wstall k) (c_pp k) (c_cause k) (c_ncb k) (c_npush k) (c_nsent k) x.
 Definition k_eof (k : conn) : conn :=
-  mkConn (c_status k) (c_latch k) (c_lasthb k) (c_rp k) (c_wp k) (c_hp k) (c_sendq k) (c_nq k) (c_inbox k) true (c_wfail k) (c_wstall k) (c_pp k) (c_cause k) (c_ncb k) (c_npush k) (c_nsent k) (c_arrived k).
+  mkConn (c_status k) (c_latch k) (c_lasthb k) (c_rp k) (c_wp k) (c_hp k) (c_sendq k) (c_sendf k) (c_nq k) (c_inbox k) true (c_wfail k) (c_wstall k) (c_pp k) (c_cause k) (c_ncb k) (c_npush k) (c_nsent k) (c_arrived k).
 Definition k_wfail (k : conn) : conn :=
-  mkConn (c_status k) (c_latch k) (c_lasthb k) (c_rp k) (c_wp k) (c_hp k) (c_sendq k) (c_nq k) (c_inbox k) (c_eof k) true (c_wstall k) (c_pp k) (c_cause k) (c_ncb k) (c_npush k) (c_nsent k) (c_arrived k).
+  mkConn (c_status k) (c_latch k) (c_lasthb k) (c_rp k) (c_wp k) (c_hp k) (c_sendq k) (c_sendf k) (c_nq k) (c_inbox k) (c_eof k) true (c_wstall k) (c_pp k) (c_cause k) (c_ncb k) (c_npush k) (c_nsent k) (c_arrived k).
 Definition k_wstall (k : conn) : conn :=
-  mkConn (c_status k) (c_latch k) (c_lasthb k) (c_rp k) (c_wp k) (c_hp k) (c_sendq k) (c_nq k) (c_inbox k) (c_eof k) (c_wfail k) true (c_pp k) (c_cause k) (c_ncb k) (c_npush k) (c_nsent k) (c_arrived k).
+  mkConn (c_status k) (c_latch k) (c_lasthb k) (c_rp k) (c_wp k) (c_hp k) (c_sendq k) (c_sendf k) (c_nq k) (c_inbox k) (c_eof k) (c_wfail k) true (c_pp k) (c_cause k) (c_ncb k) (c_npush k) (c_nsent k) (c_arrived k).
 Definition k_cause (k : conn) : conn :=
-  mkConn (c_status k) (c_latch k) (c_lasthb k) (c_rp k) (c_wp k) (c_hp k) (c_sendq k) (c_nq k) (c_inbox k) (c_eof k) (c_wfail k) (c_wstall k) (c_pp k) true (c_ncb k) (c_npush k) (c_nsent k) (c_arrived k).
+  mkConn (c_status k) (c_latch k) (c_lasthb k) (c_rp k) (c_wp k) (c_hp k) (c_sendq k) (c_sendf k) (c_nq k) (c_inbox k) (c_eof k) (c_wfail k) (c_wstall k) (c_pp k) true (c_ncb k) (c_npush k) (c_nsent k) (c_arrived k).
 Definition k_npush (k : conn) : conn :=
-  mkConn (c_status k) (c_latch k) (c_lasthb k) (c_rp k) (c_wp k) (c_hp k) (c_sendq k) (c_nq k) (c_inbox k) (c_eof k) (c_wfail k) (c_wstall k) (c_pp k) (c_cause k) (c_ncb k) (c_npush k + 1) (c_nsent k) (c_arrived k).
+  mkConn (c_status k) (c_latch k) (c_lasthb k) (c_rp k) (c_wp k) (c_hp k) (c_sendq k) (c_sendf k) (c_nq k) (c_inbox k) (c_eof k) (c_wfail k) (c_wstall k) (c_pp k) (c_cause k) (c_ncb k) (c_npush k + 1) (c_nsent k) (c_arrived k).
 Definition k_nsent (k : conn) : conn :=
-  mkConn (c_status k) (c_latch k) (c_lasthb k) (c_rp k) (c_wp k) (c_hp k) (c_sendq k) (c_nq k) (c_inbox k) (c_eof k) (c_wfail k) (c_wstall k) (c_pp k) (c_cause k) (c_ncb k) (c_npush k) (c_nsent k + 1) (c_arrived k).
+  mkConn (c_status k) (c_latch k) (c_lasthb k) (c_rp k) (c_wp k) (c_hp k) (c_sendq k) (c_sendf k) (c_nq k) (c_inbox k) (c_eof k) (c_wfail k) (c_wstall k) (c_pp k) (c_cause k) (c_ncb k) (c_npush k) (c_nsent k + 1) (c_arrived k).
 (* chSend <- x *)
 Definition k_enq (x : witem) (k : conn) : conn :=
-  mkConn (c_status k) (c_latch k) (c_lasthb k) (c_rp k) (c_wp k) (c_hp k) (x :: c_sendq k) (c_nq k + 1) (c_inbox k) (c_eof k) (c_wfail k) (c_wstall k) (c_pp k) (c_cause k) (c_ncb k) (c_npush k) (c_nsent k) (c_arrived k).
-(* <-chSend leaves r *)
-Definition k_deq (r : list witem) (k : conn) : conn :=
-  mkConn (c_status k) (c_latch k) (c_lasthb k) (c_rp k) (c_wp k) (c_hp k) r (c_nq k - 1) (c_inbox k) (c_eof k) (c_wfail k) (c_wstall k) (c_pp k) (c_cause k) (c_ncb k) (c_npush k) (c_nsent k) (c_arrived k).
+  mkConn (c_status k) (c_latch k) (c_lasthb k) (c_rp k) (c_wp k) (c_hp k) (x :: c_sendq k) (c_sendf k) (c_nq k + 1) (c_inbox k) (c_eof k) (c_wfail k) (c_wstall k) (c_pp k) (c_cause k) (c_ncb k) (c_npush k) (c_nsent k) (c_arrived k).
+(* <-chSend: the front part had an element, r stays in front *)
+Definition k_deqf (r : list witem) (k : conn) : conn :=
+  mkConn (c_status k) (c_latch k) (c_lasthb k) (c_rp k) (c_wp k) (c_hp k) (c_sendq k) r (c_nq k - 1) (c_inbox k) (c_eof k) (c_wfail k) (c_wstall k) (c_pp k) (c_cause k) (c_ncb k) (c_npush k) (c_nsent k) (c_arrived k).
+(* <-chSend: the front part was empty; the back part, reversed, becomes the front *)
+Definition k_deqb (r : list witem) (k : conn) : conn :=
+  mkConn (c_status k) (c_latch k) (c_lasthb k) (c_rp k) (c_wp k) (c_hp k) [] r (c_nq k - 1) (c_inbox k) (c_eof k) (c_wfail k) (c_wstall k) (c_pp k) (c_cause k) (c_ncb k) (c_npush k) (c_nsent k) (c_arrived k).
 (* the effect of a Close() that flips the latch, on the connection record *)
 Definition k_closed (k : conn) : conn :=
-  mkConn SClosed true (c_lasthb k) (c_rp k) (c_wp k) (c_hp k) (c_sendq k) (c_nq k) (c_inbox k) (c_eof k) (c_wfail k) (c_wstall k) (c_pp k) (c_cause k) (c_ncb k + 1) (c_npush k) (c_nsent k) (c_arrived k).
+  mkConn SClosed true (c_lasthb k) (c_rp k) (c_wp k) (c_hp k) (c_sendq k) (c_sendf k) (c_nq k) (c_inbox k) (c_eof k) (c_wfail k) (c_wstall k) (c_pp k) (c_cause k) (c_ncb k + 1) (c_npush k) (c_nsent k) (c_arrived k).
 
 (* ClientSession.Close(): the ONLY place that posts ERemove *)
 Definition do_close (c : Z) (s : st) : st :=
@@ -247,6 +251,11 @@ Definition below_working (x : status) : bool :=
 
 (* a send on chSend does not block: the queue has room, or it has been closed *)
 Definition can_send (k : conn) : bool := c_latch k || Z.ltb (c_nq k) chcap.
+
+(* conn.Write when the client does not read: it parks its caller; once the client has closed
+   as well it fails (send buffer full, peer gone) *)
+Definition stalled (k : conn) : bool := negb (c_eof k) && c_wstall k.
+Definition write_fails (k : conn) : bool := c_latch k || c_wfail k || (c_eof k && c_wstall k).
 
 (* ---- the read loop ---- *)
 Definition step_R (c : Z) (k : conn) (s : st) : st :=
@@ -265,10 +274,12 @@ Definition step_R (c : Z) (k : conn) (s : st) : st :=
       match p with
       | PDecErr => set_conn c (k_cause (k_rp RClose k)) s
       | PHandshake =>            (* SendHandshakeResponse writes on the connection directly *)
-          if c_latch k || c_wfail k then set_conn c (k_cause (k_rp RClose k)) s
+          if write_fails k then set_conn c (k_cause (k_rp RClose k)) s
+          else if stalled k then s
           else set_conn c (k_rp RTop (k_status SHandshake k)) s
       | PHandshakeBad =>
-          if c_latch k || c_wfail k then set_conn c (k_cause (k_rp RClose k)) s
+          if write_fails k then set_conn c (k_cause (k_rp RClose k)) s
+          else if stalled k then s
           else set_conn c (k_cause (k_rp RClose (k_status SClosed k))) s
       | PAck => set_conn c (k_rp RTop (k_status SWorking (k_lasthb (now s) k))) s
       | PData m =>
@@ -289,26 +300,22 @@ Definition step_R (c : Z) (k : conn) (s : st) : st :=
   | RDone => s
   end.
 
-(* the oldest element of chSend and what stays behind *)
-Definition deq (l : list witem) : option (witem * list witem) :=
-  match rev l with
-  | x :: r => Some (x, rev r)
-  | [] => None
-  end.
-
 (* ---- the write loop: select { <-chanClose ; <-chSend } ; conn.Write ---- *)
 Definition step_W (c : Z) (k : conn) (s : st) : st :=
   match c_wp k with
   | WLoop =>
       if c_latch k then set_conn c (k_wp WClose k) s
-      else match deq (c_sendq k) with
-           | Some (x, r) => set_conn c (k_wp (WWrite x) (k_deq r k)) s
-           | None => s
+      else match c_sendf k with
+           | x :: r => set_conn c (k_wp (WWrite x) (k_deqf r k)) s
+           | [] => match rev (c_sendq k) with
+                   | x :: r => set_conn c (k_wp (WWrite x) (k_deqb r k)) s
+                   | [] => s
+                   end
            end
   | WWrite x =>                  (* conn.Write(pWrite.data) *)
       if c_latch k then set_conn c (k_wp WClose k) s           (* closed under us: write error *)
-      else if c_wfail k then set_conn c (k_cause (k_wp WClose k)) s
-      else if c_wstall k then s                                 (* the client does not read *)
+      else if c_wfail k || (c_eof k && c_wstall k) then set_conn c (k_cause (k_wp WClose k)) s
+      else if stalled k then s                                  (* the client does not read *)
       else set_conn c (match x with WPush => k_nsent (k_wp WLoop k) | WHb => k_wp WLoop k end) s
   | WClose =>
       match aget c (conns (do_close c s)) with
@@ -566,8 +573,8 @@ Definition free_labels (c : Z) (k : conn) : list label :=
   ++ (if Z.ltb 0 (c_pp k) then [LStep c TP] else []).
 
 Definition conn_fuel (k : conn) : nat :=
-  (8 + (if c_wstall k then 0 else Z.to_nat (c_nq k))
-     + (if can_send k then Z.to_nat (c_pp k) else 0))%nat.
+  (8 + (if c_wstall k then 0 else 2 * Z.to_nat (c_nq k))
+     + (if can_send k then 2 * Z.to_nat (c_pp k) else 0))%nat.
 
 Fixpoint settle_conn_n (n : nat) (c : Z) (s : st) : st :=
   match n with
@@ -585,11 +592,16 @@ Definition settle_H (c : Z) (s : st) : st :=
   | None => s
   end.
 
-Definition settle_one (c : Z) (s : st) : st :=
+(* the fuel is recomputed after a first few rounds: a Close in those rounds is what lets the
+   parked senders go on *)
+Definition settle_phase (c : Z) (s : st) : st :=
   match aget c (conns s) with
-  | Some k => settle_H c (settle_conn_n (conn_fuel k) c s)
+  | Some k => settle_conn_n (conn_fuel k) c s
   | None => s
   end.
+
+Definition settle_one (c : Z) (s : st) : st :=
+  settle_H c (settle_phase c (settle_phase c (settle_conn_n 8 c s))).
 
 Fixpoint iter_label (n : nat) (l : label) (s : st) : st :=
   match n with O => s | S n' => iter_label n' l (step s l) end.
